@@ -88,6 +88,30 @@ theorem v6_write_read_roundtrip (t : Tw.Huffman.Table) (hrt : Tw.Packet6.Huffman
         r.warns = Tw.Packet6.expectedWarnings p :=
   Tw.Packet6.write_read_roundtrip t hrt p hv cap scap hcap hs
 
+/-- **The silent truncation of `ConnectedPacket::write` (0.6) as an explicit outcome.**  `write` returns
+`okTruncated bs` — the Rust returns `Ok(bs)` — exactly for a chunk packet with a token whose payload plus
+token exceed the 2048-byte `ArrayVec` the token is appended in (and whose truncated form fitted into the
+caller's buffer); `bs` then encodes only the first 2048 bytes of payload ++ token, a proper prefix. -/
+theorem v6_write_truncates_iff (t : Tw.Huffman.Table) (p : Tw.Packet6.Packet) (cap : Nat) (bs : List UInt8) :
+    Tw.Packet6.write t p cap = .okTruncated bs ↔
+      ∃ ack tk rr nc payload, p = .connected ack (some tk) (.chunks rr nc payload) ∧
+        payload.length + Tw.Gen.Packet6.TOKEN_SIZE > Tw.Packet6.TOKEN_BUFFER_CAP ∧
+        Tw.Packet6.writeChunksCore t ack rr nc (Tw.Packet6.tokenExtend payload (some tk)) cap = .ok bs :=
+  Tw.Packet6.write_okTruncated_iff t p cap bs
+
+theorem v6_truncation_loses_data (payload : List UInt8) (tk : Token)
+    (h : payload.length + Tw.Gen.Packet6.TOKEN_SIZE > Tw.Packet6.TOKEN_BUFFER_CAP) :
+    (Tw.Packet6.tokenExtend payload (some tk)).length = Tw.Packet6.TOKEN_BUFFER_CAP ∧
+    Tw.Packet6.tokenExtend payload (some tk) ≠ payload ++ tk.toList :=
+  Tw.Packet6.truncation_loses_data payload tk h
+
+/-- … and it never happens to a `Valid` packet (built-in table). -/
+theorem v6_valid_packet_not_truncated (p : Tw.Packet6.Packet) (hv : Tw.Packet6.Valid p) (cap : Nat)
+    (hcap : Tw.Gen.Packet6.MAX_PACKETSIZE ≤ cap) (bs : List UInt8) :
+    Tw.Packet6.write Tw.Gen.Huffman.table p cap ≠ .okTruncated bs :=
+  Tw.Packet6.valid_not_truncated _
+    (fun xs c h => Tw.Huffman.decompress_compress _ Tw.Huffman.wellFormed_table false xs c h) p hv cap hcap bs
+
 /-- The connected-packet limit the API documents (`MAX_PAYLOAD` bytes of chunk data plus one vital chunk
 header, with a token) is inside `Valid`. -/
 theorem v6_max_payload_is_valid (ack : Nat) (tok : Option Token) (rr : Bool) (nc : Nat)
